@@ -82,6 +82,15 @@ func genLargeProject(seed int64) (*proj.Project, int, int) {
 		libs := 16 + r.Intn(20)
 		p := proj.Generate(r, proj.Opts{InScope: true, Libs: libs, Mains: 2 + r.Intn(2), RootMain: r.Intn(3) == 0,
 			ChangeP: 0.45, FuncsPer: 3, SmallBody: true})
+		// changed files that receive no tracking point and are not in go/printer layout: the
+		// sequential and the parallel save path must treat them alike (both re-print them)
+		for _, pk := range p.Pkgs {
+			if !pk.IsMain && r.Intn(3) == 0 {
+				path := filepath.Join(pk.Dir, "a_unfmt.go")
+				p.ExtraOld[path] = fmt.Sprintf("package %s\n\ntype Unfmt struct {\n\tA int\n}\n", pk.Name)
+				p.ExtraNew[path] = fmt.Sprintf("package %s\n\ntype Unfmt struct {\n\tA int\n\tLongFieldName   string // new\n\tB []int\n}\n\nconst   UnfmtK = 3\n", pk.Name)
+			}
+		}
 		o, n := p.Files(true), p.Files(false)
 		ch := 0
 		for path, v := range n {
